@@ -9,7 +9,7 @@
    j5 kind without rules, a key keeps its primary / foreign / tenant qualifiers, a reference becomes the
    outcome of resolving it among everything the expansion defines plus the implicit imports, `repeated`
    becomes an array, a map type a map, a filterable field has list rules.  Entity.v does not carry `query.listRequest`
-   (the one construct on which the converter panics: recorded finding), so no list request appears here. *)
+   (Entity.v now has q_list_settings for it; this map leaves it out: see CmpbDecls for list requests). *)
 From Coq Require Import String List NArith Bool Arith.
 From J5V.lib Require Import Outcome.
 From J5V.model Require Import Entity CmpbFields CmpbDecls.
@@ -58,6 +58,10 @@ Section Defs.
     | Entity.TOneof p n => CmpbFields.TOneof (ref_of false p n) false lr
     | Entity.TEnum p n => CmpbFields.TEnum (ref_of true p n) None lr
     | Entity.TMap _ => TOther                     (* a map of maps is not expressible *)
+    | Entity.TNested _ k =>                       (* a type defined inline, nested in the containing message *)
+        if N.eqb k 0 then CmpbFields.TObject RInlineObject (f_flatten f) false
+        else if N.eqb k 1 then CmpbFields.TOneof RInlineOneof false lr
+        else CmpbFields.TEnum RInlineEnum None lr
     end.
 
   Definition abs_prop (f : ofield) : prop :=
@@ -83,6 +87,17 @@ Section Defs.
     mkMethod true (verb_http (mt_verb m)) (bytes_eqb (mt_out m) (bs ".google.api.HttpBody")) params_ok
              (negb (N.eqb (mt_sq m) 0)) false.
 
+  (* the object / oneof an inline field defines is visited like a nested declaration (an inline enum sets
+     nothing) *)
+  Definition inline_decls (t : target) (fs : list ofield) : list (target * decl) :=
+    flat_map (fun f => match f_inline f with
+      | Some il =>
+          if N.eqb (il_kind il) 2 then []
+          else let ps := map (fun sf => abs_prop (of_sfield sf)) (il_fields il) in
+               [(t, if N.eqb (il_kind il) 1 then DOneof ps else DObject false ps)]
+      | None => []
+      end) fs.
+
   (* one component = the declarations the converter visits for it, each with its output file *)
   Definition comp_decls (c : component) : list (target * decl) :=
     match c with
@@ -91,6 +106,7 @@ Section Defs.
         (t, if m_oneof m then DOneof (map abs_prop (m_fields m))
             else DObject (is_some (m_psm m)) (map abs_prop (m_fields m)))
         :: map (fun n => (t, DObject false (map abs_prop (snd n)))) (m_nested m)
+        ++ inline_decls t (m_fields m ++ flat_map snd (m_nested m))
     | CEnum _ values => [(FMain, DEnum (mkEnum false (map (fun _ => false) values)))]
     | CSvc file s =>
         match Entity.sv_ann s with
